@@ -1,4 +1,5 @@
-"""P part shared by C14 / C08: util.analyse_paths - base path = longest common directory prefix, relative paths keep every differing level."""
+"""P part shared by C14 / C08: util.analyse_paths - base path = longest common directory prefix, relative paths keep every differing level;
+ParquetFile.__init__ - which root reaches metadata_from_many; ParquetFile.basepath / row_group_filename on the fn shapes __init__ produces."""
 from contracts import c14_paths
 from vlib.common import PROVED, REFUTED, UNKNOWN
 
@@ -38,6 +39,14 @@ def replay_native(model):
 def p_analyse(ctx):
     ctx.assumptions += [a for a in c14_paths.ASSUMED if a not in ctx.assumptions]
     for name, model, detail in c14_paths.check(ctx, 10000 if ctx.tier == "quick" else 60000):
+        if name.startswith("ParquetFile."):
+            # __init__: provenance of the `root` argument in a symbolic run (no input to replay); basepath / row_group_filename: the
+            # expressions of the CURRENT source were executed on the fn shape in the model - that execution is the native confirmation
+            executed = not name.startswith("ParquetFile.__init__")
+            ctx.violation(name, {"function": "api." + ".".join(name.split(".")[:2]), "model": model, "snippet": None,
+                                 "replay_result": "executed on the current source" if executed else "symbolic run of __init__"}, executed,
+                          what=((detail or "")[:200] + " | " + str(model)[:160]))
+            continue
         try:
             confirmed, text = replay_native(model)
         except Exception as ex:
